@@ -579,6 +579,9 @@ def closure_sources(rng, n, nsamples):
         reqs.append({"kind": "c12gen", "src": g["src"], "n": nsamples, "sched": True})
     for (p, rows, _dyn) in lmmx_gen.gen_cases(rng.fork("lmmx"), n, nsamples):
         reqs.append({"kind": "lmmxgen", "src": lmmx.pp_prog(p), "n": nsamples, "inputs": rows})
+    # the same generator with sum types, match and wide (tuple / record / sum-typed) self
+    for (p, rows, _dyn) in lmmx_gen.gen_cases(rng.fork("lmmx-ext"), n, nsamples, ext=True):
+        reqs.append({"kind": "lmmxext", "src": lmmx.pp_prog(p), "n": nsamples, "inputs": rows})
     for i in range(n):
         r = rng.fork(("c18", i))
         src, has_in = C18.XGen(r).program()
@@ -820,6 +823,10 @@ def run_part(ck, quick=True):
            "dump_garbled_in_shared_process": 0, "closure_programs": 0, "closure_programs_agree": 0,
            "inside_model_shipped": 0, "outside_model": 0,
            "outside_model_by": {}, "accepted_closure_programs": 0, "accepted_dynamic_stop": {}}
+    cov["programs_by_kind"] = {}
+    for rq in reqs:
+        kd = rq["kind"].split(":")[0]
+        cov["programs_by_kind"][kd] = cov["programs_by_kind"].get(kd, 0) + 1
     lines, idx = [], []
     for i, (rq, r) in enumerate(zip(reqs, res)):
         if r is None or "crash" in r:
